@@ -67,6 +67,9 @@ extern "C" {
 void vsched_point(const volatile void *addr, int kind);
 void vsched_read(unsigned long long value);   // value observed by the current coroutine (for state hashing)
 int vsched_spurious(void);                    // 1 = this compare_exchange_weak fails spuriously
+// optional second scheduling point right after the operation (Scenario::pointAfterAtomics): separates the
+// atomic step from the plain (non-atomic) accesses to shared memory that follow it in program order
+void vsched_after(const volatile void *addr);
 }
 
 namespace std {
@@ -88,38 +91,43 @@ struct vatomic {
         vsched_point(this, 0);
         T r = v_;
         note(r);
+        vsched_after(this);
         return r;
     }
-    void store(T d, memory_order = memory_order_seq_cst) noexcept { vsched_point(this, 1); v_ = d; }
+    void store(T d, memory_order = memory_order_seq_cst) noexcept { vsched_point(this, 1); v_ = d; vsched_after(this); }
     operator T() const noexcept { return load(); }
     T operator=(T d) noexcept { store(d); return d; }
 
     T exchange(T d, memory_order = memory_order_seq_cst) noexcept {
         vsched_point(this, 2);
         T r = v_; v_ = d; note(r);
+        vsched_after(this);
         return r;
     }
     bool compare_exchange_strong(T &expected, T desired, memory_order = memory_order_seq_cst, memory_order = memory_order_seq_cst) noexcept {
         vsched_point(this, 2);
-        if (memcmp(&v_, &expected, sizeof(T)) == 0) { v_ = desired; vsched_read(1); return true; }
+        if (memcmp(&v_, &expected, sizeof(T)) == 0) { v_ = desired; vsched_read(1); vsched_after(this); return true; }
         expected = v_; note(expected);
+        vsched_after(this);
         return false;
     }
     bool compare_exchange_weak(T &expected, T desired, memory_order = memory_order_seq_cst, memory_order = memory_order_seq_cst) noexcept {
         vsched_point(this, 2);
         if (memcmp(&v_, &expected, sizeof(T)) == 0) {
-            if (vsched_spurious()) { vsched_read(2); return false; } // spurious failure: expected unchanged
+            if (vsched_spurious()) { vsched_read(2); vsched_after(this); return false; } // spurious failure: expected unchanged
             v_ = desired; vsched_read(1);
+            vsched_after(this);
             return true;
         }
         expected = v_; note(expected);
+        vsched_after(this);
         return false;
     }
-    T fetch_add(T d, memory_order = memory_order_seq_cst) noexcept { vsched_point(this, 2); T r = v_; v_ = (T)(v_ + d); note(r); return r; }
-    T fetch_sub(T d, memory_order = memory_order_seq_cst) noexcept { vsched_point(this, 2); T r = v_; v_ = (T)(v_ - d); note(r); return r; }
-    T fetch_and(T d, memory_order = memory_order_seq_cst) noexcept { vsched_point(this, 2); T r = v_; v_ = (T)(v_ & d); note(r); return r; }
-    T fetch_or(T d, memory_order = memory_order_seq_cst) noexcept { vsched_point(this, 2); T r = v_; v_ = (T)(v_ | d); note(r); return r; }
-    T fetch_xor(T d, memory_order = memory_order_seq_cst) noexcept { vsched_point(this, 2); T r = v_; v_ = (T)(v_ ^ d); note(r); return r; }
+    T fetch_add(T d, memory_order = memory_order_seq_cst) noexcept { vsched_point(this, 2); T r = v_; v_ = (T)(v_ + d); note(r); vsched_after(this); return r; }
+    T fetch_sub(T d, memory_order = memory_order_seq_cst) noexcept { vsched_point(this, 2); T r = v_; v_ = (T)(v_ - d); note(r); vsched_after(this); return r; }
+    T fetch_and(T d, memory_order = memory_order_seq_cst) noexcept { vsched_point(this, 2); T r = v_; v_ = (T)(v_ & d); note(r); vsched_after(this); return r; }
+    T fetch_or(T d, memory_order = memory_order_seq_cst) noexcept { vsched_point(this, 2); T r = v_; v_ = (T)(v_ | d); note(r); vsched_after(this); return r; }
+    T fetch_xor(T d, memory_order = memory_order_seq_cst) noexcept { vsched_point(this, 2); T r = v_; v_ = (T)(v_ ^ d); note(r); vsched_after(this); return r; }
 
     T operator++() noexcept { return (T)(fetch_add((T)1) + 1); }
     T operator++(int) noexcept { return fetch_add((T)1); }
@@ -145,8 +153,8 @@ struct vatomic_flag {
     constexpr vatomic_flag(bool b) noexcept : v_(b) {}
     vatomic_flag(const vatomic_flag &) = delete;
     vatomic_flag &operator=(const vatomic_flag &) = delete;
-    bool test_and_set(memory_order = memory_order_seq_cst) noexcept { vsched_point(this, 2); bool r = v_; v_ = true; vsched_read(r); return r; }
-    void clear(memory_order = memory_order_seq_cst) noexcept { vsched_point(this, 1); v_ = false; }
+    bool test_and_set(memory_order = memory_order_seq_cst) noexcept { vsched_point(this, 2); bool r = v_; v_ = true; vsched_read(r); vsched_after(this); return r; }
+    void clear(memory_order = memory_order_seq_cst) noexcept { vsched_point(this, 1); v_ = false; vsched_after(this); }
 };
 
 } // namespace std
